@@ -14,7 +14,8 @@ PROP = dict(
           "alphabet); every 4- and 8-character text over {A,Q,=,*,-,/} through base64_decode for both alphabets (quick tier: 8-character texts "
           "over {A,=,*,-,/}); every single-character substitution (256 values x every position), truncation and one-character extension of "
           "valid encodings of 0..48 bytes; every byte string of length 0..3 through rot13, escape_url (both flags), escape_controls (both "
-          "modes), escape_quotes (lengths 0..2 case by case, the 2^24 three-byte strings per function/flag in a hot loop over the same clauses); "
+          "modes), escape_quotes (lengths 0..2 case by case, the 2^24 three-byte strings per function/flag in a hot loop over the same clauses; the quick tier sweeps the "
+          "quarter of them whose first two bytes sum to a multiple of 4, the thorough tier all); "
           "ports 0..65535 for eight hosts. Dictionary: about 115 well-known multi-byte sequences (UTF-8/16/32/7 byte order marks, U+2028/2029, NEL, "
           "NBSP, zero-width and bidi marks, U+FFFD and non-characters, overlong / surrogate / truncated / beyond-U+10FFFF UTF-8, the first and last "
           "character of each UTF-8 length, CRLF and controls, ANSI/OSC terminal sequences, percent / backslash / entity escape syntaxes, quotes, "
